@@ -43,8 +43,11 @@ MIXED = {
     "mix_normal_triangle": ["normal_box", "triangle_mid"],
     "mix_uniform_normal": ["uniform01", "normal_inf"],
     "mix_triangle_triangle": ["triangle_left", "triangle_right"],
+    # the SAME distribution tuple in both dimensions, but different supports
+    "mix_uniform_uniform": ["uniform01", "uniform"],
+    "mix_triangle_same_peak": ["triangle_mid", "triangle_mid_narrow"],
 }
-DISTS_EXTRA = {"normal_far": (("Normal", 3.0, 0.5), -INF, INF)}
+DISTS_EXTRA = {"normal_far": (("Normal", 3.0, 0.5), -INF, INF), "triangle_mid_narrow": (("Triangle", 1.0), 0.5, 2.0)}
 
 
 def _spec(name, d):
@@ -279,7 +282,8 @@ def main(ctx):
                               ("uniform", False, 2, 2, 1), ("triangle_left", False, 1, 3, 2), ("normal_box", True, 1, 3, 2),
                               ("triangle_right", True, 2, 1 if q else 2, 1),
                               ("mix_normal_normal", False, 2, 2, 1), ("mix_normal_triangle", True, 2, 1 if q else 2, 1),
-                              ("mix_uniform_normal", False, 2, 1 if q else 2, 1), ("mix_triangle_triangle", True, 2, 1 if q else 2, 1)):
+                              ("mix_uniform_normal", False, 2, 1 if q else 2, 1), ("mix_triangle_triangle", True, 2, 1 if q else 2, 1),
+                              ("mix_uniform_uniform", True, 2, 1 if q else 2, 1), ("mix_triangle_same_peak", False, 2, 1, 1)):
         cfg = {"kind": "moments", "dist": name, "boundary": bd, "d": d, "s": s, "rebalancing": True}
         tag = "moments_%s_bd%d_d%d_D%d_s%d" % (name, bd, d, D, s)
         ctx.bounds[tag] = core.bfs(ctx, cfg, D, tag=tag)
